@@ -127,3 +127,36 @@ Section ProbePre.
         rewrite (pre_opp c ok), He in Hlt. cbn in Hlt. discriminate.
   Qed.
 End ProbePre.
+
+(* The index-key shortening laws under the preorder contract: a < isep a b < b and b < isucc b also
+   hold for comparers that are not injective (only pre_sep_ok / the acceptance test are used). *)
+Section ShortenPre.
+  Variable c : comparer.
+  Hypothesis ok : comparer_pre_ok c.
+  Variable p : kparams.
+
+  Lemma pltb_lt a b : ltb c a b = true -> cmp c a b = Lt.
+  Proof. unfold ltb. destruct (cmp c a b); intros H; try discriminate H; reflexivity. Qed.
+
+  Lemma picmp_ukey_lt a b : cmp c (uk a) (uk b) = Lt -> icmp c a b = Lt.
+  Proof. unfold icmp. intros ->. reflexivity. Qed.
+
+  Lemma pisep_law a b x : isep c p a b = Some x -> icmp c a x = Lt /\ icmp c x b = Lt.
+  Proof.
+    unfold isep. destruct (sep c (uk a) (uk b)) as [d|] eqn:S; try discriminate.
+    destruct (Nat.ltb (length d) (length (uk a)) && ltb c (uk a) d)%bool eqn:C; try discriminate.
+    intros H; injection H as <-.
+    apply andb_prop in C as [_ C]. apply pltb_lt in C.
+    split; apply picmp_ukey_lt; cbn [uk]; [exact C|].
+    apply (pre_sep_ok c ok _ _ _ S).
+  Qed.
+
+  Lemma pisucc_law b x : isucc c p b = Some x -> icmp c b x = Lt.
+  Proof.
+    unfold isucc. destruct (succ c (uk b)) as [d|] eqn:S; try discriminate.
+    destruct (Nat.ltb (length d) (length (uk b)) && ltb c (uk b) d)%bool eqn:C; try discriminate.
+    intros H; injection H as <-.
+    apply andb_prop in C as [_ C]. apply pltb_lt in C.
+    apply picmp_ukey_lt; cbn [uk]. exact C.
+  Qed.
+End ShortenPre.
